@@ -36,13 +36,13 @@ ASSUMPTIONS = [
 BUDGET = {"quick": {"examples": 8000, "seconds": 60}, "thorough": {"examples": 250000, "seconds": 1500}}
 
 PROFILE = Profile(
-    ops={"arith", "index", "tensor", "var", "cond", "math", "pow", "shortcut", "abs", "capture"},
+    ops={"arith", "index", "tensor", "var", "cond", "math", "pow", "shortcut", "abs", "capture", "zerofree"},
     leaves={"coef", "const", "lit", "zero", "x"},
     max_rank=2, elements="lagrange", manifolds=False, nindex=4,
     weights={"var": 2, "comp": 4, "indexfree": 4, "contract": 3, "mul": 3},
 )
 PROFILE_D = Profile(
-    ops={"arith", "index", "tensor", "var", "cond", "math", "pow", "compound", "deriv", "abs"},
+    ops={"arith", "index", "tensor", "var", "cond", "math", "pow", "compound", "deriv", "abs", "zerofree"},
     leaves={"coef", "const", "lit", "zero", "x"},
     max_rank=2, elements="all", manifolds=True, nindex=4,
     weights={"var": 2, "comp": 3, "indexfree": 3, "contract": 3},
